@@ -5,7 +5,8 @@ import binascii, hashlib, json, multiprocessing, os, random, select, signal, sub
 ROOT = os.path.dirname(os.path.dirname(os.path.abspath(__file__)))
 REPO = '/repo'
 TARGET = os.path.join(ROOT, 'target')
-MVH = os.path.join(TARGET, 'release', 'mvh')
+DEV_EXE = os.environ.get('MV_DEV_EXE')
+MVH = DEV_EXE or os.path.join(TARGET, 'release', 'mvh')
 MVH_PLAIN = os.path.join(TARGET, 'plain', 'mvh')
 CLI = os.path.join(TARGET, 'cli', 'release', 'mamba')
 NCPU = min(16, os.cpu_count() or 4)
@@ -22,6 +23,9 @@ def log(*a):
 def build(plain=False, cli=False):
     """(Re)build the harness against /repo's current working tree. No-op when nothing changed."""
     t0 = time.time()
+    if DEV_EXE:     # development aid only (never set by a registered command): a harness built elsewhere, e.g. against a scratch worktree
+        log('MV_DEV_EXE set: not building, using ' + DEV_EXE)
+        return 0.0
     cmds = [(['cargo', 'build', '--release', '--offline'], os.path.join(ROOT, 'harness'), ENV)]
     if plain:
         cmds.append((['cargo', 'build', '--profile', 'plain', '--offline'], os.path.join(ROOT, 'harness'), ENV))
